@@ -428,8 +428,60 @@ fn enumerate_layouts(width: u128, maxs: u128, maxr: usize) -> Vec<Vec<(u128, u12
     out
 }
 
+/// OWNED anonymous regions of 2 MiB and more (where an implementation may align or over-allocate):
+/// every route to a host pointer for a guest address must give the same pointer, and a byte written
+/// through the byte-access interface must be the byte at that pointer. Regions are kept alive so
+/// that the placements differ.
+fn big_owned_regions() {
+    use vm_memory::{Bytes, MemoryRegionAddress};
+    let mut keep = vec![];
+    for (k, size) in [(2usize << 20) - 4096, 2 << 20, (2 << 20) + 4096, (4 << 20) + 8192, 3 << 20, (2 << 20) + 12288, 8 << 20].into_iter().cycle().take(42).enumerate() {
+        let base = 0x4000_0000u64 + (k as u64) * 0x100_0000;
+        let reg = match GuestRegionMmap::<()>::from_range(GuestAddress(base), size, None) {
+            Ok(r) => r,
+            Err(e) => {
+                out::note("C02/big-owned-region-not-created", J::dbg(&e));
+                continue;
+            }
+        };
+        let gm = GuestMemoryMmap::from_regions(vec![reg]).expect("layout");
+        let region = gm.iter().next().unwrap();
+        for off in [0usize, 1, 4095, 4096, size / 2, size - 4097, size - 1] {
+            let a = GuestAddress(base + off as u64);
+            let p_region = region.as_ptr() as usize + off;
+            let p_gm = gm.get_host_address(a).map(|p| p as usize);
+            let p_reg = region.get_host_address(MemoryRegionAddress(off as u64)).map(|p| p as usize);
+            let p_slice = gm.get_slice(a, 1).map(|s| s.ptr_guard().as_ptr() as usize);
+            let p_whole = region.as_volatile_slice().map(|s| s.ptr_guard().as_ptr() as usize + off);
+            let p_rslice = region.get_slice(MemoryRegionAddress(off as u64), 1).map(|s| s.ptr_guard().as_ptr() as usize);
+            let all = [p_gm.ok(), p_reg.ok(), p_slice.ok(), p_whole.ok(), p_rslice.ok()];
+            if all.iter().any(|p| *p != Some(p_region)) {
+                out::viol("C02/big-owned/host-pointer-routes-disagree", jobj! {"size" => size, "off" => off, "as_ptr+off" => p_region, "get_host_address" => J::dbg(&all[0]), "region.get_host_address" => J::dbg(&all[1]), "get_slice" => J::dbg(&all[2]), "as_volatile_slice+off" => J::dbg(&all[3]), "region.get_slice" => J::dbg(&all[4])});
+            }
+            // data written through the interface is the data at the host pointer
+            let val = 0xa5u8 ^ off as u8;
+            if gm.write_obj(val, a).is_err() || unsafe { (p_region as *const u8).read_volatile() } != val {
+                out::viol("C02/big-owned/byte-written-at-guest-address-not-at-its-host-pointer", jobj! {"size" => size, "off" => off});
+            }
+            unsafe { (p_region as *mut u8).write_volatile(!val) };
+            if gm.read_obj::<u8>(a).ok() != Some(!val) {
+                out::viol("C02/big-owned/byte-at-host-pointer-not-read-at-guest-address", jobj! {"size" => size, "off" => off});
+            }
+            out::eval(3);
+        }
+        out::key(&format!("big-owned|size{}MiB{}|placement{}", size >> 20, if size % (1 << 20) == 0 { "" } else { "+" }, if region.as_ptr() as usize % (2 << 20) == 0 { "-2MiB-aligned" } else { "" }), true);
+        keep.push(gm);
+    }
+    out::count("big_owned_regions", keep.len() as i128);
+}
+
 pub fn run(args: &Args) {
     out::set_quiet_cases(true);
+    if args.shard().0 == 0 && !cfg!(miri) {
+        if let Err(p) = guarded(big_owned_regions) {
+            out::viol(&format!("C02/panic/big-owned/{}", panic_sig(&p)), J::s(p));
+        }
+    }
     let mut res = Reservation::new();
     let mut judged = 0u64;
     let (sh_i, sh_n) = args.shard();
